@@ -86,6 +86,20 @@ net('mux-reg', {'a': 2, 'sel': 1, 'q': 2, 'nq': 2, 'd': 2, 'o': 2},
      ('sub', lambda s, W: Sub(s, 'sub', W['d'], W['q'], W['o']))], ['a', 'sel'])
 
 
+# a shared (bidirectional) net between stateless blocks, driven through an ordinary out port and read through ordinary in ports
+net('shared-net', {'a': 2, 'bus': ('bidir', 2), 'r': 2, 'o': 2, 'p': 2},
+    [('drv', lambda s, W: Buf(s, 'drv', W['a'], W['bus'])),
+     ('rd', lambda s, W: Not(s, 'rd', W['bus'], W['r'])),
+     ('j', lambda s, W: And2(s, 'j', W['r'], W['a'], W['o'])),
+     ('k', lambda s, W: Or2(s, 'k', W['bus'], W['o'], W['p']))], ['a'])
+
+net('shared-net after a register', {'a': 2, 'q': 2, 'bus': ('bidir', 2), 'r': 2, 'o': 2},
+    [('reg', lambda s, W: Reg(s, 'reg', W['a'], W['q'])),
+     ('drv', lambda s, W: Not(s, 'drv', W['q'], W['bus'])),
+     ('rd', lambda s, W: Buf(s, 'rd', W['bus'], W['r'])),
+     ('j', lambda s, W: And2(s, 'j', W['r'], W['a'], W['o']))], ['a'])
+
+
 class TracedXor(py4hw.Logic):
     """a stateless gate that also has a clock() hook (statistics only): both propagatable and clockable"""
     def __init__(self, parent, name, a, b, r):
@@ -195,7 +209,7 @@ def build_net(name, order, late=0, nest=False):
     nest: the leaves live two levels down, inside structural containers, instead of directly under the system"""
     wires, leaves, ins = NETS[name]
     s = py4hw.HWSystem()
-    W = {n: s.wire(n, w) for n, w in wires.items()}
+    W = {n: (s.bidir_wire(n, w[1]) if isinstance(w, tuple) else s.wire(n, w)) for n, w in wires.items()}
     parent = py4hw.Logic(py4hw.Logic(s, 'unit'), 'stage') if nest else s
     first = order[:len(order) - late] if late else order
     for i in first:
@@ -527,6 +541,17 @@ def cyc_nets():
         else:
             Not(s, 'g2', x, y)
     C['ring through a gate with a clock() hook'] = traced_ring
+
+    def bidir_ring(s, cut):
+        a, x, y = s.wire('a', 2), s.wire('x', 2), s.wire('y', 2)
+        bus = s.bidir_wire('bus', 2)
+        And2(s, 'g1', a, y, x)
+        Not(s, 'drv', x, bus)                  # the ring is closed through a shared (bidirectional) net
+        if cut:
+            Reg(s, 'r', bus, y)
+        else:
+            Buf(s, 'rd', bus, y)
+    C['ring closed through a bidirectional net'] = bidir_ring
 
     def traced_self(s, cut):
         a, x = s.wire('a', 2), s.wire('x', 2)
